@@ -528,6 +528,117 @@ def _silent_worker(payload):
 
 
 # ------------------------------------------------------------------------------------------ entry points
+# ------------------------------------------------------------------------------------------ coverage-guided stream
+def _ddmin(case, same, budget_s=20.0):
+    """token-level delta debugging of a failing text; `same(sql)` says whether the failure is still the same one"""
+    import time
+
+    t0 = time.time()
+    toks = TOK.findall(case["sql"])
+    n = 2
+    while len(toks) >= 2 and time.time() - t0 < budget_s:
+        chunk = max(1, len(toks) // n)
+        cut = False
+        for i in range(0, len(toks), chunk):
+            cand = toks[:i] + toks[i + chunk:]
+            if cand and same("".join(cand)):
+                toks, n, cut = cand, max(n - 1, 2), True
+                break
+            if time.time() - t0 > budget_s:
+                break
+        if not cut:
+            if chunk == 1:
+                break
+            n = min(len(toks), n * 2)
+    return dict(case, sql="".join(toks))
+
+
+def _fuzz_stream(ctx):
+    """16 atheris (libFuzzer) campaigns in subprocesses (vlib/fuzz_c10.py); their statistics are merged, every new escape
+    call site is minimised and reported.  When atheris cannot be imported the stream is recorded as unavailable."""
+    import json
+    import shutil
+    import subprocess
+    import sys
+    import tempfile
+    import time
+
+    res = runner.Res()
+    runs = ctx.n(450, 40000)
+    max_s = int(max(10, min(ctx.n(30, 1500), ctx.budget_s - (time.time() - ctx.t0) - 30)))
+    if max_s <= 10 and ctx.out_of_time():
+        res.budget_exhausted = True
+        return res
+    base = tempfile.mkdtemp(prefix="verif_c10fuzz_")
+    try:
+        procs = []
+        for shard in range(runner.NCPU):
+            out = os.path.join(base, str(shard))
+            os.makedirs(out)
+            log = open(os.path.join(out, "log"), "w")
+            procs.append((shard, out, subprocess.Popen(
+                [sys.executable, "-B", os.path.join(runner.HOME, "vlib", "fuzz_c10.py"), str(shard), out, str(runs),
+                 str(runner.derive_seed(ctx.seed, "C10fuzz", shard) % (2 ** 31 - 1) + 1), str(max_s), json.dumps(sorted(ctx.active))],
+                stdout=log, stderr=subprocess.STDOUT, cwd=runner.HOME)))
+        covs, execs, viols, unavailable = [], 0, [], 0
+        for shard, out, p in procs:
+            try:
+                rc = p.wait(timeout=max_s + 300)
+            except subprocess.TimeoutExpired:
+                p.kill()
+                rc = -9
+            if rc == 3:
+                unavailable += 1
+                continue
+            sp = os.path.join(out, "stats.json")
+            if not os.path.exists(sp):
+                tail = open(os.path.join(out, "log"), errors="replace").read()[-1500:]
+                raise runner.HarnessError(f"fuzz shard {shard} left no statistics (rc={rc}):\n{tail}")
+            d = json.load(open(sp))
+            r = runner.Res()
+            r.evals, r.nt = d["evals"], set(d["nt"])
+            r.labels.update(d["labels"])
+            r.kf.update(d["kf"])
+            r.kf_examples.update(d["kf_examples"])
+            r.samples = [tuple(x) for x in d["samples"]]
+            res.merge(r)
+            execs += d["execs"]
+            if d["execs"] < runs:
+                res.labels["fuzz_shards_stopped_by_time"] += 1
+            m = re.findall(r"cov: (\d+) ft: (\d+)", open(os.path.join(out, "log"), errors="replace").read())
+            if m:
+                covs.append((int(m[-1][0]), int(m[-1][1])))
+            vp = os.path.join(out, "violations.jsonl")
+            if os.path.exists(vp):
+                viols.extend(json.loads(line) for line in open(vp))
+        if unavailable:
+            res.discard("fuzz_shards_without_atheris")
+        res.extra["fuzz"] = {"engine": "atheris/libFuzzer, coverage of the sqllineage package only", "shards": len(procs) - unavailable,
+                             "executions": execs, "runs_per_shard": runs, "max_s_per_shard": max_s,
+                             "edges_covered_max": max((c for c, _ in covs), default=0), "features_max": max((f for _, f in covs), default=0),
+                             "corpus": "even shards empty, odd shards ~80 corpus statements"}
+        seen = set()
+        for v in viols:
+            key = (v["detail"].get("exc"), v["detail"].get("site"))
+            if key in seen or len(seen) >= 5:
+                continue
+            seen.add(key)
+            c = v["case"]
+
+            def same(sql, c=c, key=key):
+                o = analyse(sql, c["dialect"])
+                return o["kind"] == "escape" and (o.get("exc"), o.get("site")) == key
+
+            if same(c["sql"]):  # reproduces outside the fuzzer process (otherwise state leaked between iterations: not reported)
+                small = _ddmin(c, same)
+                res.violation(v["kind"], small, analyse(small["sql"], small["dialect"]))
+            else:
+                res.discard("fuzz_escape_not_reproducible_in_a_fresh_process")
+    finally:
+        shutil.rmtree(base, ignore_errors=True)
+    return res
+
+
 def replay(case):
     if case.get("silent"):
         d = check_silent(case)
@@ -562,6 +673,7 @@ def run(ctx):
     n3 = ctx.n(640, 12000)
     calib = {d: len(calibrate_unsupported(d)) for d in SILENT_DIALECTS}  # in the parent: workers inherit it through fork
     res.merge(runner.merge_all(runner.pmap(_silent_worker, [(i, n3 // runner.NCPU, ctx) for i in range(runner.NCPU)])))
+    res.merge(_fuzz_stream(ctx))
     res.extra["dialects"] = len(s["dialects"])
     res.extra["unsupported_statements_calibrated"] = calib
     return res
